@@ -110,6 +110,34 @@ func verifGoroutines() (states []string, stacks []string) {
 	return
 }
 
+// verifStuckCopier: a copier goroutine parked in a channel operation of copyLoop's own code
+// (not inside a conn operation): nobody will ever complete it — a stable state, reported in
+// the status as stuck=<n>.
+func verifStuckCopier(state, stack string) bool {
+	if state != "chan send" && state != "chan receive" && state != "select" {
+		return false
+	}
+	// the frame right below the runtime's is copyLoop's closure itself
+	for _, l := range strings.Split(stack, "\n") {
+		if strings.HasPrefix(l, "runtime.") || strings.HasPrefix(l, "\t") || strings.HasPrefix(l, "goroutine ") {
+			continue
+		}
+		return strings.HasPrefix(l, "main.copyLoop.func")
+	}
+	return false
+}
+
+func verifStuckCopiers() int {
+	n := 0
+	states, stacks := verifGoroutines()
+	for i, s := range states {
+		if strings.Contains(stacks[i], "main.copyLoop.func") && verifStuckCopier(s, stacks[i]) {
+			n++
+		}
+	}
+	return n
+}
+
 // verifQuiesce waits until every goroutine other than the caller is parked on a channel,
 // select, condition variable or semaphore.  The code under test has no timers, so a parked
 // configuration cannot change until the driver acts.  Returns false if that state is not
@@ -130,7 +158,8 @@ func verifQuiesce() bool {
 			// operation (waiting for the script), nowhere else
 			if strings.Contains(stacks[i], "main.copyLoop.func") &&
 				!(s == "chan receive" && (strings.Contains(stacks[i], "(*verifConn).park") ||
-					strings.Contains(stacks[i], "(*verifBufConn).hold"))) {
+					strings.Contains(stacks[i], "(*verifBufConn).hold"))) &&
+				!verifStuckCopier(s, stacks[i]) {
 				ok = false
 				break
 			}
@@ -152,6 +181,10 @@ func verifQuiesce() bool {
 type verifErr string
 
 func (e verifErr) Error() string { return string(e) }
+
+// Is: the error of an operation on a closed scripted conn is a net.ErrClosed, as that of a
+// real net.Conn is.
+func (e verifErr) Is(target error) bool { return e == verifClosed && target == net.ErrClosed }
 
 const verifClosed = verifErr("verif: use of closed connection")
 
@@ -375,6 +408,9 @@ func (r *verifRelay) status() string {
 	if r.ret != "" {
 		sb.WriteString(" ret=" + r.ret)
 	}
+	if n := verifStuckCopiers(); n > 0 {
+		fmt.Fprintf(&sb, " stuck=%d", n)
+	}
 	return sb.String()
 }
 
@@ -490,7 +526,7 @@ func (r *verifRelay) end() bool {
 	select {
 	case <-r.done:
 		return true
-	case <-time.After(10 * time.Second):
+	case <-time.After(2 * time.Second):
 		return false
 	}
 }
